@@ -49,11 +49,23 @@ def combos(tier):
         out.append((spec, {"control": "Exact", "penalty": "ObjectiveFilter", "newton": "Simplified", "display_interval": 2e-6}, None))
     # a 30-variable problem with the iterative linear solvers: nothing below the loop may depend on the limits
     from pgfmc.model import specs as S
-    big = S.banded_qp(30, "mixed", 0)
+    big = S.banded_qp(100, "mixed", 0)
     out.append((big, {"control": "DistanceRatio", "penalty": "DualNorm", "newton": "Simplified", "linear": "GMRES", "step_solver": "Standard"}, None))
     out.append((big, {"control": "DistanceRatio", "penalty": "DualNorm", "newton": "Simplified", "linear": "MINRES", "step_solver": "Symmetric"}, None))
     if tier != "quick":
         out.append((big, {"control": "Exact", "penalty": "DualNorm", "newton": "Full", "linear": "GMRES", "step_solver": "Asymmetric"}, None))
+    # dense equality-constrained QP, 40 variables + 12 rows, Hessian spectrum spread over [1, 1e3]: GMRES needs several restart cycles
+    import numpy as np
+    rs = np.random.RandomState(7)
+    n, m = 40, 12
+    Qm, _ = np.linalg.qr(rs.normal(size=(n, n)))
+    Hd = (Qm * np.logspace(0, 3, n)).dot(Qm.T)
+    Hd = 0.5 * (Hd + Hd.T)
+    Ad = rs.normal(size=(m, n))
+    bd = Ad.dot(rs.normal(size=n))
+    dense = G.raw(n, {"H": Hd.tolist(), "g": rs.normal(size=n).tolist()}, [{"a": Ad[i].tolist(), "b": 0.0, "lb": float(bd[i]), "ub": float(bd[i])} for i in range(m)],
+                  ["-inf"] * n, ["inf"] * n, [0.0] * n, "dense_eq_qp_40x12", y0=[0.0] * m)
+    out.append((dense, {"control": "DistanceRatio", "penalty": "DualNorm", "newton": "Simplified", "linear": "GMRES", "step_solver": "Standard"}, None))
     return out
 
 
